@@ -99,17 +99,27 @@ def run(repo, rep, tier):
         site = MOD + "." + q
         t = eval_prec(repo, q)
         lat = t[2]
-        phis = [x for x in T.walk(lat) if x[0] == "phi" and any(y[0] == "call" and y[1] == "acos" for y in T.walk(x[2]))
-                and any(y[0] == "call" and y[1] == "asin" for y in T.walk(x[3]))]
+        has = lambda t_, fn_: any(y[0] == "call" and y[1] == fn_ for y in T.walk(t_))
+        phis = []
+        for x in T.walk(lat):
+            if x[0] == "phi" and has(x[2], "acos") and has(x[3], "asin") and not has(x[3], "acos"):
+                phis.append((x[1], x))
+            elif x[0] == "phi" and has(x[3], "acos") and has(x[2], "asin") and not has(x[2], "acos"):
+                # the same selection written the other way round: acos is taken when the test fails
+                c_ = x[1]
+                compl = {"Lt": "GtE", "LtE": "Gt", "Gt": "LtE", "GtE": "Lt"}
+                phis.append(((("cmp", compl[c_[1]], c_[2], c_[3]) if (c_[0] == "cmp" and c_[1] in compl) else ("not", c_)), x))
         if not phis:
             # no acos shortcut at all is fine (asin(c) everywhere)
             if any(y[0] == "call" and y[1] == "acos" for y in T.walk(lat)):
-                rep.violation("R-SIGN", site, "pole-branch-shape", "the near-pole branch is not `acos(.) if <declination test> else asin(c)`")
+                rep.inconcl("R-SIGN", site, "the near-pole branch is not recognised as a selection between acos(.) and asin(c) on a declination test")
             else:
                 rep.ok("R-SIGN", site, "declination always from asin(c)")
             continue
-        for ph in phis:
-            c = ph[1]
+        for c, ph in phis:
+            if c[0] == "not":
+                rep.inconcl("R-SIGN", site, "the test selecting the acos branch is not a plain comparison: " + T.show(c)[:80])
+                continue
             ok = c[0] == "cmp" and c[1] in ("Gt", "GtE") and c[3][0] == "num" and c[3][1] >= 0 \
                 and any(y == T.sym("LAT") for y in T.walk(c[2])) and not any(y[0] == "call" and y[1] == "abs" for y in T.walk(c[2]))
             if ok:
